@@ -279,10 +279,13 @@ package stdlibspec
 //@   pure
 //@   ensures (result0 != nil) != (result1 != nil)
 //@   ensures result0 != nil ==> fresh(result0)
+// lastResolved: the URL object returned by the last ResolveReference call (ghost)
+//@ ghost var lastResolved *url.URL
 //@ extern (*net/url.URL).ResolveReference(u, ref)
-//@   pure
+//@   requires u != nil && ref != nil
+//@   assigns lastResolved
 //@   fresh
-//@   ensures result != nil
+//@   ensures result != nil && lastResolved == result
 //@ spec func portOfHost(host string) string
 //@ spec func nameOfHost(host string) string
 //@ extern (*net/url.URL).Port(u)
@@ -291,10 +294,47 @@ package stdlibspec
 //@ extern (*net/url.URL).Hostname(u)
 //@   pure
 //@   ensures result == nameOfHost(u.Host)
+//@ spec func escPathV(path string, rawPath string) string
 //@ extern (*net/url.URL).EscapedPath(u)
+//@   requires u != nil
 //@   pure
+//@   ensures result == escPathV(u.Path, u.RawPath)
+//@ spec func containsS(s string, sub string) bool
+//@ extern strings.Contains(s, substr)
+//@   pure
+//@   ensures result == containsS(s, substr)
 
 //@ iface context.Context.Done(c)
 //@   pure
 //@ iface context.Context.Err(c)
 //@   pure
+
+// ---------------------------------------------------------------------------
+// strings.Builder: ghost content sbc[b]; app1(s, c) = s followed by the byte c
+//@ ghost heap sbc *strings.Builder string
+//@ spec func app1(s string, c byte) string
+//@ axiom app1-len: forall s string, c byte :: len(app1(s, c)) == len(s) + 1
+//@ extern (*strings.Builder).WriteByte(b, c)
+//@   requires b != nil
+//@   assigns sbc[b]
+//@   ensures sbc[b] == app1(old(sbc[b]), c) && result == nil
+//@ extern (*strings.Builder).WriteRune(b, r)
+//@   requires b != nil
+//@   assigns sbc[b]
+//@   ensures r >= 0 && r < 128 ==> sbc[b] == app1(old(sbc[b]), byte(r))
+//@ extern (*strings.Builder).WriteString(b, s)
+//@   requires b != nil
+//@   assigns sbc[b]
+//@   ensures sbc[b] == old(sbc[b]) + s
+//@ extern (*strings.Builder).String(b)
+//@   requires b != nil
+//@   pure
+//@   ensures result == sbc[b]
+//@ extern (*strings.Builder).Len(b)
+//@   requires b != nil
+//@   pure
+//@   ensures result == len(sbc[b])
+//@ extern (*strings.Builder).Reset(b)
+//@   requires b != nil
+//@   assigns sbc[b]
+//@   ensures sbc[b] == ""
